@@ -201,21 +201,25 @@ async fn run_async(sc: &Scn, render: bool) -> RunOutput {
         if sc.timeout != 0 && sc.timeout < sc.interval {
             wit |= W_CLAMPED;
         }
-        // pings leave every I while the connection is alive
+        // a ping leaves every I while the connection is alive (whether the first one leaves at start-up or
+        // one interval later is not prescribed)
         let alive_until = ended_at.unwrap_or(end_now);
-        for (k, t) in pings.iter().enumerate() {
-            let want = i * k as u32;
-            if *t + TOL < want || *t > want + TOL {
-                push_viol(&mut viol, "ping.schedule", format!("Ping #{k} left at {t:?}, expected {want:?} (interval {i:?})"));
+        if let Some(first) = pings.first() {
+            if *first > i + TOL {
+                push_viol(&mut viol, "ping.schedule", format!("the first Ping left at {first:?}, later than one interval {i:?} after start-up"));
+            }
+        }
+        for k in 1..pings.len() {
+            let gap = pings[k] - pings[k - 1];
+            if gap + TOL < i || gap > i + TOL {
+                push_viol(&mut viol, "ping.schedule", format!("Ping #{k} left {gap:?} after the previous one (at {:?}), interval is {i:?}", pings[k]));
             }
         }
         let expected_pings = (alive_until.as_millis() / i.as_millis()) as usize + 1;
-        // the tick at which the timeout is detected sends no ping
-        let expected_pings_min = expected_pings.saturating_sub(1);
-        if pings.len() < expected_pings_min.min(expected_pings) || pings.len() > expected_pings {
-            push_viol(&mut viol, "ping.count", format!("{} Ping(s) in {alive_until:?} of life with interval {i:?} (expected {expected_pings_min}..={expected_pings})", pings.len()));
+        // (the tick at which the timeout is detected sends no ping; a first ping after one interval is one fewer)
+        if pings.len() + 2 < expected_pings || pings.len() > expected_pings {
+            push_viol(&mut viol, "ping.count", format!("{} Ping(s) in {alive_until:?} of life with interval {i:?} (expected about {expected_pings})", pings.len()));
         }
-        // last pong the endpoint received before it ended (or start-up)
         // Only pongs the task actually took out of its socket count: after giving up it does not read any more.
         let consumed = w.sim.link.lock().dirs[1].consumed as usize;
         let lp = if ended_at.is_some() { pongs_rx.iter().take(consumed).map(|(t, _)| *t).last().unwrap_or(Duration::ZERO) } else { pongs_rx.last().map_or(Duration::ZERO, |(t, _)| *t) };
